@@ -47,6 +47,9 @@ pub struct Scen {
     /// None = all schedules (unbounded DPOR); Some(k) = all schedules with at most k preemptions
     #[serde(default)]
     pub preemption_bound: Option<usize>,
+    /// the destination accepts at most two bytes per write call (legal `Write` behaviour)
+    #[serde(default)]
+    pub short_dest: bool,
 }
 
 /// Destination that records the size of every write call it receives.
@@ -54,12 +57,19 @@ pub struct Scen {
 pub struct Dest {
     pub data: Vec<u8>,
     pub calls: Vec<usize>,
+    pub short: bool,
+}
+impl Dest {
+    fn new(short: bool) -> Dest {
+        Dest { data: vec![], calls: vec![], short }
+    }
 }
 impl Write for Dest {
     fn write(&mut self, buf: &[u8]) -> std::io::Result<usize> {
-        self.data.extend_from_slice(buf);
-        self.calls.push(buf.len());
-        Ok(buf.len())
+        let n = if self.short { buf.len().min(2) } else { buf.len() };
+        self.data.extend_from_slice(&buf[..n]);
+        self.calls.push(n);
+        Ok(n)
     }
     fn flush(&mut self) -> std::io::Result<()> {
         Ok(())
@@ -124,6 +134,7 @@ fn one_execution(s: &Scen) {
             let chunks2 = payload(second, 100);
             let all2: Vec<u8> = chunks2.iter().flatten().cloned().collect();
             let (gbuf, gwriter) = TempFileBuffer::<Dest>::new(s.inmemory);
+            let _ = Dest::new(false);
             let (mut c1, w1) = TempFileBuffer::<TempFileBufferWriter<Dest>>::new(s.inmemory);
             let (mut c2, w2) = TempFileBuffer::<TempFileBufferWriter<Dest>>::new(s.inmemory);
             let h1 = spawn_producer(w1, chunks.clone(), s.flush_after, s.bufwriter);
@@ -137,7 +148,7 @@ fn one_execution(s: &Scen) {
             let total = (all.len() + all2.len()) as u64;
             let len = gbuf.len().expect("len failed");
             assert_eq!(len, total, "len() = {} but {} bytes were written", len, total);
-            let mut out = Dest::default();
+            let mut out = Dest::new(s.short_dest);
             gbuf.expect_closed_write(&mut out).expect("expect_closed_write failed");
             let mut want = all.clone();
             want.extend_from_slice(&all2);
@@ -151,13 +162,13 @@ fn one_execution(s: &Scen) {
             let h = spawn_producer(writer, chunks.clone(), s.flush_after, s.bufwriter);
             match prog {
                 Prog::SwitchAwait => {
-                    buf.switch(Dest::default());
+                    buf.switch(Dest::new(s.short_dest));
                     let d = buf.await_real_file();
                     assert_eq!(d.data, all, "destination bytes differ from the bytes written");
                     record_outcome(&d.calls);
                 }
                 Prog::SwitchPollAwait => {
-                    buf.switch(Dest::default());
+                    buf.switch(Dest::new(s.short_dest));
                     while !buf.is_real_file_ready() {
                         loom::thread::yield_now();
                     }
@@ -166,7 +177,7 @@ fn one_execution(s: &Scen) {
                     record_outcome(&d.calls);
                 }
                 Prog::ClosedWrite => {
-                    let mut out = Dest::default();
+                    let mut out = Dest::new(s.short_dest);
                     buf.expect_closed_write(&mut out).expect("expect_closed_write failed");
                     assert_eq!(out.data, all, "copied bytes differ from the bytes written");
                     record_outcome(&out.calls);
@@ -174,7 +185,7 @@ fn one_execution(s: &Scen) {
                 Prog::LenClosedWrite => {
                     let len = buf.len().expect("len failed");
                     assert_eq!(len, all.len() as u64, "len() = {} but {} bytes were written", len, all.len());
-                    let mut out = Dest::default();
+                    let mut out = Dest::new(s.short_dest);
                     buf.expect_closed_write(&mut out).expect("expect_closed_write failed");
                     assert_eq!(out.data, all, "copied bytes differ from the bytes written");
                     record_outcome(&out.calls);
@@ -244,7 +255,20 @@ impl Check for C12 {
                             prog: prog.clone(),
                             bufwriter: false,
                             preemption_bound: None,
+                            short_dest: false,
                         });
+                        // the same against a destination that takes two bytes per call
+                        if h.iter().any(|w| *w == 3) && (h.len() <= 2 || !quick) && *prog != Prog::LenOnly {
+                            v.push(Scen {
+                                writes: h.clone(),
+                                flush_after: fl,
+                                inmemory,
+                                prog: prog.clone(),
+                                bufwriter: false,
+                                preemption_bound: None,
+                                short_dest: true,
+                            });
+                        }
                     }
                 }
             }
@@ -258,6 +282,7 @@ impl Check for C12 {
                         prog: prog.clone(),
                         bufwriter: true,
                         preemption_bound: None,
+                        short_dest: false,
                     });
                 }
             }
@@ -288,6 +313,7 @@ impl Check for C12 {
                     prog: Prog::Nested { second: b },
                     bufwriter: false,
                     preemption_bound: pb,
+                    short_dest: false,
                 });
             }
         }
@@ -322,6 +348,9 @@ impl Check for C12 {
         }
         if matches!(s.prog, Prog::Nested { .. }) {
             out.count("nested_scenarios", 1);
+        }
+        if s.short_dest {
+            out.count("short_write_destination_scenarios", 1);
         }
         if s.inmemory {
             out.count("inmemory_scenarios", 1);
